@@ -83,7 +83,7 @@ func jobC09(c *rt.Ctx) {
 							fmt.Sprintf("default-mode verification refused a triple whose %s is [k]B+T_%d (k != 0 mod L)", name, ti), d)
 					}
 					// positions in the first chunk, at its end, in a second and third batched chunk, in the remainder
-					shapes := []batchShape{{0, 4}, {3, 4}, {4, 5}, {5, 6}, {6, 7}, {66, 68}, {69, 70}}
+					shapes := []batchShape{{0, 1}, {1, 2}, {2, 3}, {0, 4}, {3, 4}, {4, 5}, {5, 6}, {6, 7}, {66, 68}, {69, 70}}
 					if c.Thorough() || ti%4 == 1 {
 						shapes = append(shapes, batchShape{63, 65}, batchShape{64, 65}, batchShape{64, 130}, batchShape{131, 133}, batchShape{128, 129})
 					}
@@ -174,7 +174,7 @@ func jobC09(c *rt.Ctx) {
 						c.Violation(fmt.Sprintf("C09 e2e %s options-object reuse", name), fmt.Sprintf("%s (%s): one Options value used with ZIP215Verify = true, then false, then a copy with false: %v %v %v (want true false false)", name, tr.name, first, second, third), d)
 					}
 				}()
-				for _, sh := range []batchShape{{0, 4}, {3, 4}, {4, 5}, {5, 6}, {4, 6}, {6, 7}, {10, 11}, {62, 63}, {63, 65}, {64, 65}, {67, 68}, {69, 70}, {66, 71}, {64, 132}, {130, 132}, {133, 134}} {
+				for _, sh := range []batchShape{{0, 1}, {0, 2}, {1, 2}, {0, 3}, {2, 3}, {0, 4}, {3, 4}, {4, 5}, {5, 6}, {4, 6}, {6, 7}, {10, 11}, {62, 63}, {63, 65}, {64, 65}, {67, 68}, {69, 70}, {66, 71}, {64, 132}, {130, 132}, {133, 134}} {
 					_, valid, err, bpv := implBatch(batchWith(t, sh.pos, sh.n, vs), vs, false, rt.NewRng(c.Seed, "c09b"))
 					c.Step(1)
 					bad := bpv != nil || err != nil || len(valid) != sh.n
